@@ -13,7 +13,9 @@ RULE = ('stimulus = (pipeline of <=3 filter specs, initial control blocks, sends
         'non-trivial = pipeline has >= 2 filters or a DataEdit chain of >= 2 operations')
 
 UNDEF = -1000
-CODES = {-1000: 'UNDEF', -1001: None, -1002: '', -1003: (), 901: 'x', 902: (1,), 800: 'src'}
+CODES = {-1000: 'UNDEF', -1001: None, -1002: '', -1003: (), 901: 'x', 902: (1,), 800: 'src',
+         # control block outputs that are mappings (a truthy and a falsy one)
+         903: {'z': 9}, -1004: {}}
 KEYS = ['a', 'b', 'c']
 
 
@@ -101,7 +103,7 @@ def _script(rnd, n, numeric):
     for _ in range(n):
         if rnd.random() < .2:
             evs.append({'ev': 'ctl', 'blk': rnd.randint(1, 2),
-                        'out': rnd.choice([0, 1, 5, 3] if numeric else [-1001, 0, 1, 5, 901])})
+                        'out': rnd.choice([0, 1, 5, 3] if numeric else [-1001, 0, 1, 5, 901, 903, -1004])})
         else:
             evs.append({'ev': 'send', 'data': _rand_data(rnd, numeric)})
     return evs
@@ -152,7 +154,8 @@ def stimuli(tier, seed, ctx):
         pre = _script(rnd, rnd.randint(0, 4), numeric) if any(f['k'] == 'ifnotinit' for f in fs) else []
         out.append(_stim(fs, pre, _script(rnd, rnd.randint(3, 10), numeric),
                          # (Delta is documented for numeric values only: no non-numeric control outputs then)
-                         (rnd.choice([0, 1, 5]), rnd.choice([0, 2, 3] if numeric else [0, -1001, 901]))))
+                         (rnd.choice([0, 1, 5] if numeric else [0, 1, 5, 903, -1004]),
+                          rnd.choice([0, 2, 3] if numeric else [0, -1001, 901, 903]))))
     return out
 
 
